@@ -52,6 +52,7 @@ LONG_SENTENCES = [
     "meeting with john on the first monday of next month at half past eight in the evening for two hours and thirty minutes",
 ]
 PAIR_JOINERS = [" ", " - ", " for ", " bis "]
+QUICK_DUMMY = (True, 10, 0.1, "dummy", False)  # constant scorer, short sequences admitted, default depth limit (without the limit some 2-token texts need minutes)
 EXTREME_OPTS = [(True, 10, 1.0, "shipped", False), (False, 0, 0.1, "random", False), (True, 0, 0.1, "dummy", False)]
 
 
@@ -114,8 +115,8 @@ def plan(tier, seed):
                     yield ("call", t, ts, o, seed)
         for ti, t in enumerate(k2):
             for ts in k2_ts:
-                # quick: the default vector for every text, the two extreme vectors (random scorer / constant scorer, both with relative_match_len 0.1) alternate
-                for i, o in enumerate(k2_opts if tier != "quick" else (EXTREME_OPTS[0], EXTREME_OPTS[1 + ti % 2])):
+                # quick: the default vector for every text, the random-scorer extreme vector and the constant scorer with relative_match_len 0.1 (default depth) alternate
+                for i, o in enumerate(k2_opts if tier != "quick" else (EXTREME_OPTS[0], EXTREME_OPTS[1] if ti % 2 == 0 else QUICK_DUMMY)):
                     # 2-token texts: the stream is consumed separately under the default vector and through debug=True vectors;
                     # under the other vectors the single-result call (which drains the same stream internally) is exercised
                     yield ("call" if (i == 0 or tier != "quick") else "call1", t, ts, o, seed)
@@ -154,7 +155,8 @@ def plan(tier, seed):
             for h in huge:
                 for unit in ("days", "nights", "hours", "months", "wochen", "minuten"):
                     for text in ("{} for {} {}".format(start, h, unit), "{} {} {}".format(h, unit, start), "{} {} {}".format(start, h, unit)):
-                        for o in (EXTREME_OPTS[0], EXTREME_OPTS[2]):
+                        # (without depth limit and with relative_match_len 0.1 every suffix of a 400-digit run is a match sequence of its own: 40 s per text; thorough only)
+                        for o in ((EXTREME_OPTS[0], QUICK_DUMMY) if tier == "quick" else (EXTREME_OPTS[0], EXTREME_OPTS[2])):
                             yield ("call", text, edge[3], o, seed)
         for b in cps:
             yield ("cpblock", b, edge[3])
